@@ -178,6 +178,57 @@ Definition sort_names (l : list string) : list string := fold_right insert_name 
 Fixpoint join_with (sep : string) (l : list string) : string :=
   match l with [] => "" | [x] => x | x :: l' => (x ++ sep ++ join_with sep l')%string end.
 
+(** ** Resolution of a path text as given to the kernel (not cleaned first):
+    "." and empty components are kept because "file/." and "file/" fail with
+    ENOTDIR; [walk1d] is [walk1] with that case added *)
+Definition raw_todo (s : string) : list comp :=
+  match raw_comps s with
+  | c :: rest => if String.eqb c "" then map (fun x => if String.eqb x "" then "." else x) rest
+                 else map (fun x => if String.eqb x "" then "." else x) (c :: rest)
+  | [] => []
+  end.
+
+Fixpoint walk1d (fs : fsys) (cur : path) (todo : list comp) (follow : bool) : wres :=
+  match todo with
+  | [] => WDone cur
+  | c :: rest =>
+    if String.eqb c "." then walk1d fs cur rest follow
+    else if String.eqb c ".." then walk1d fs (parent cur) rest follow
+    else
+      let p := cur ++ [c] in
+      match look fs p with
+      | None => match rest with [] => WMissing cur c | _ => WErr ENOENT end
+      | Some DirO => walk1d fs p rest follow
+      | Some (FileO _) => match rest with [] => WDone p | _ => WErr ENOTDIR end
+      | Some (LinkO t) =>
+        match rest, follow with
+        | [], false => WDone p
+        | _, _ =>
+          if String.eqb t "" then WErr ENOENT
+          else WExpand (if is_abs t then [] else cur) (raw_todo t ++ rest)
+        end
+      end
+  end.
+
+Fixpoint walkd (n : nat) (fs : fsys) (cur : path) (todo : list comp) (follow : bool) : wres :=
+  match walk1d fs cur todo follow with
+  | WExpand cur' todo' => match n with O => WErr ELOOP | S n' => walkd n' fs cur' todo' follow end
+  | r => r
+  end.
+
+Definition resolve_raw (fs : fsys) (path : string) (follow : bool) : wres := walkd max_links fs [] (raw_todo path) follow.
+
+Definition look_raw (fs : fsys) (path : string) (follow : bool) : option obj + errno :=
+  match resolve_raw fs path follow with
+  | WDone q => inl (look fs q)
+  | WMissing _ _ => inr ENOENT
+  | WErr e => inr e
+  | WExpand _ _ => inr ELOOP
+  end.
+
+Definition resolved_raw (fs : fsys) (ptxt : string) (follow : bool) : option path :=
+  match resolve_raw fs ptxt follow with WDone q => Some q | _ => None end.
+
 (** ** Requests *)
 Inductive request :=
 | RUpload (path data : string)
@@ -272,25 +323,24 @@ Definition exec (allowed : list string) (fs : fsys) (r : request) : outcome :=
     | VOk cs =>
       (* ValidateDownloadMetadata works on the path as given (the kernel resolves
          its ".." components physically); ReadFileForDownload on the cleaned path *)
-      let raw := split_path path in
       let link_ok :=
-        match sys_lstat fs raw with
+        match look_raw fs path false with
         | inl (Some (LinkO _)) =>
-          match resolved fs raw true with
+          match resolved_raw fs path true with
           | Some q => allowed_lex allowed q
           | None => false
           end
         | _ => true
         end in
       if negb link_ok then refused fs
-      else match sys_stat fs raw with
+      else match look_raw fs path true with
            | inl (Some _) =>
              match sys_stat fs cs with
              | inl (Some DirO) => {| o_fs := fs; o_code := 0; o_payload := "<directory>"; o_chmod := None;
-                                     o_touched := opt_list (resolved fs raw true) ++ opt_list (resolved fs cs true) |}
+                                     o_touched := opt_list (resolved_raw fs path true) ++ opt_list (resolved fs cs true) |}
              | inl (Some (FileO i)) => {| o_fs := fs; o_code := 0; o_payload := content fs i; o_chmod := None;
-                                          o_touched := opt_list (resolved fs raw true) ++ opt_list (resolved fs cs true) |}
-             | _ => failed fs (opt_list (resolved fs raw true))
+                                          o_touched := opt_list (resolved_raw fs path true) ++ opt_list (resolved fs cs true) |}
+             | _ => failed fs (opt_list (resolved_raw fs path true))
              end
            | _ => failed fs []
            end
